@@ -80,6 +80,9 @@ public:
             assert(!data.empty());
             data.push_back(data.back());
         }
+#ifdef UTAP_VERIF
+        size_t size() const { return data.size(); }  // verification hook: depth of the type stack
+#endif
     };
 
 protected:
